@@ -151,6 +151,16 @@ def instances(tier):
                                    N("L1", "PLoad", "C", group="mcu", phases=["a", "b"]), N("L2", "ILoad", "S", phases=["b"], loss=True),
                                    N("L3", "RLoad", "C", phases=["a"]), phases=["a", "b"])
     cat["mux-order"] = S(N("S1", "Source"), N("S2", "Source"), N("S3", "Source"), N("M", "PMux", ["S3", "S1", "S2"], rs_list=True), N("L", "ILoad", "M"))
+    # one small shape per kind so that EVERY parameter of every kind (incl. rt, sleep currents, loss flag) is symbolic in a round trip
+    for kind in spec.KINDS:
+        if kind in ("Source", "PMux"):
+            continue
+        if kind in spec.LOADS:
+            cat["kind-" + kind] = S(N("S", "Source"), N("X", kind, "S", loss=(kind != "PLoad")))
+        else:
+            cat["kind-" + kind] = S(N("S", "Source"), N("X", kind, "S"), N("L", "ILoad", "X", only=()))
+    cat["kind-PMux"] = S(N("S", "Source", only=()), N("S2", "Source"), N("X", "PMux", ["S", "S2"], rs_list=True), N("L", "ILoad", "X", only=()))
+    cat["kind-PMux-scalar-rs"] = S(N("S", "Source", only=()), N("X", "PMux", ["S"]), N("L", "PLoad", "X", loss=True))
     for sid, sh in cat.items():
         big = len(sh["nodes"]) > 4
         out.append(Instance("C12", "c12:e_roundtrip", dict(shape=sh, lim_keys=["vi", "io", "pl"]), name="E/" + sid, uf=True,
